@@ -20,7 +20,7 @@ import subprocess
 import sys
 
 from mon import refbufr as R
-from mon.gen import streams
+from mon.gen import streams, cases
 from mon.timelimit import time_limit, CaseTimeout
 
 ID = 'C12'
@@ -305,6 +305,21 @@ def run(ctx):
                 ctx.count('lenient_decodes_before_faults')
             except Exception:
                 ctx.count('lenient_decode_raises')
+        # a second long-lived decoder with template compilation on, which has already decoded every intact pool message
+        # (a damaged copy must not be served from what an intact message left in its caches)
+        decc = Decoder(compiled_template_cache_max=max(4, len(pool)))
+        from mon.gen.templates import scoped
+        okc = set()
+        for m in pool:
+            # compilation is only claimed to preserve behaviour for templates whose operators are closed within one
+            # replication scope (C08's proviso): other messages are scanned with the plain decoder only
+            try:
+                if scoped(m.ids, cases.tables((m.meta or {}).get('master_table_version', 33))[1]) and \
+                        decc.process(m.bytes).serialized_bytes == m.bytes:
+                    okc.add(id(m))
+                    ctx.count('compiled_decoder_warmed')
+            except Exception:
+                ctx.count('compiled_decoder_warm_raises')
         # (a) truncation + suffix
         for i, m in enumerate(pool):
             if not ctx.more():
@@ -334,7 +349,10 @@ def run(ctx):
                 ctx.count('faults_' + f[0].replace('-', '_'))
                 order = [m, other] if fi % 2 else [other, m]
                 dmg = {order.index(m): f}
-                stream = stream_case(ctx, dec, order, dmg, dict(origin='single-fault', ids=m.ids))
+                use_c = fi % 3 == 2 and id(m) in okc and id(other) in okc
+                if use_c:
+                    ctx.count('fault_streams_on_compiled_decoder')
+                stream = stream_case(ctx, decc if use_c else dec, order, dmg, dict(origin='single-fault', ids=m.ids, compiled_decoder=use_c))
                 if ncli < (3 if ctx.quick else 20) and fi % 7 == 0 and f[3] in ('invalid', 'unknown-descriptor'):
                     ncli += 1
                     cli_check(ctx, stream, scratch, 'p%d_%d' % (mi, fi), dict(origin='cli', stream_hex=stream.hex(), fault=list(f[:2])),
@@ -363,7 +381,10 @@ def run(ctx):
                         dmg[j] = f
                         ctx.count('faults_' + f[0].replace('-', '_'))
                     ctx.count('damage_subsets_n%d' % n)
-                    stream_case(ctx, dec, msgs, dmg, dict(origin='damage-subsets', n=n))
+                    use_c = bool(rep % 2) and all(id(x) in okc for x in msgs)
+                    if use_c:
+                        ctx.count('fault_streams_on_compiled_decoder')
+                    stream_case(ctx, decc if use_c else dec, msgs, dmg, dict(origin='damage-subsets', n=n, compiled_decoder=use_c))
     finally:
         shutil.rmtree(scratch, ignore_errors=True)
 
